@@ -123,3 +123,11 @@ func NewJob(uid string, queue string, preemptible bool, priority int32, minMembe
 }
 
 func Name(prefix string, i int) string { return fmt.Sprintf("%s%d", prefix, i) }
+
+// SetNodePods replaces the node's pod-slot capacity by a (possibly symbolic) value.
+func SetNodePods(ni *node_info.NodeInfo, pods int64) {
+	ni.Allocatable.ScalarResources()[v1.ResourcePods] = pods
+	ni.Idle.ScalarResources()[v1.ResourcePods] = pods
+	ni.AllocatableVector = ni.Allocatable.ToVector(ni.VectorMap)
+	ni.IdleVector = ni.Idle.ToVector(ni.VectorMap)
+}
